@@ -150,7 +150,7 @@ func runReplay(repo, verifDir string, plan *replayPlan) (bool, string, string) {
 	ov, _ := json.Marshal(map[string]any{"Replace": map[string]string{filepath.Join(repo, plan.pkgDir, "zz_govc_replay_test.go"): testFile}})
 	ovPath := filepath.Join(tmp, "ov.json")
 	_ = os.WriteFile(ovPath, ov, 0o644)
-	args := []string{"test", "-overlay", ovPath, "-vet=off", "-count=1", "-timeout", "60s", "-run", "^" + plan.test + "$", "."}
+	args := []string{"test", "-overlay", ovPath, "-vet=off", "-count=1", "-v", "-timeout", "60s", "-run", "^" + plan.test + "$", "."}
 	cmd := exec.Command("go", args...)
 	cmd.Dir = filepath.Join(repo, plan.pkgDir)
 	cmd.Env = append(os.Environ(), "GOFLAGS=-mod=mod", "GOPROXY=off")
